@@ -163,7 +163,8 @@ func init() {
 			{Pkg: "rtmp", Func: "HarnessC02_Headers", Labels: []string{"headers", "extdelta"},
 				Bound: "one chunk stream (form 1/2/3 forked, id symbolic in 3..63 / 64..319 / 64..65599), 2 messages (thorough 2-3), later ones with header type 0/1/2/3 forked; timestamps and deltas 32 symbolic bits (extended timestamps are solver choices); payload 1-4 symbolic bytes"},
 			{Pkg: "rtmp", Func: "HarnessC02_Interleave", Labels: []string{"interleave"},
-				Bound: "Set Chunk Size with symbolic size in [1,2^31-1], two chunk streams (forms forked, ids symbolic and distinct), one message of 1-4 bytes each, all interleavings of their chunks, optionally a second Set Chunk Size (symbolic) between chunks of unfinished messages"},
+				Bound: "Set Chunk Size with symbolic size in [1,2^31-1], two chunk streams (forms forked, ids symbolic and distinct), one message of 1-4 bytes each, all interleavings of their chunks"},
+			{Pkg: "rtmp", Func: "HarnessC02_Rescale", Labels: []string{"rescale"}, Bound: "chunk size symbolic 1..3, one message of 3-5 bytes on a chunk stream with symbolic id; after 0-2 of its chunks a second Set Chunk Size with symbolic size (itself chunked with the old size), then the rest of the message"},
 			{Pkg: "rtmp", Func: "HarnessC02_Reject", Labels: []string{"reject", "reject-librtmp-ok"},
 				Bound: "one rule violation per stream: fresh chunk stream starting with fmt 1/2/3; fmt 0 inside an unfinished message; length changed mid-message (other length 24 symbolic bits); plus the documented librtmp ping which must be accepted"},
 		},
